@@ -19,7 +19,7 @@ from .. import rig as R, ref, gen, qcore
 from ..orch import h
 
 ID = "C13"
-TECHNIQUE = 'runtime monitoring - per (connection, subscription id) automaton fed from the boundary log; exhaustive symbol sequences to depth 3/4 under two pacings and consumers, random sequences to depth 40, failing stored queries, REQ bursts with default settings'
+TECHNIQUE = 'runtime monitoring - per (connection, subscription id) automaton fed from the boundary log; exhaustive symbol sequences to depth 3/4 under two pacings and consumers, random sequences to depth 40, failing stored queries, REQ bursts with default settings; end-to-end shard: hostile subscription ids and ill-formed REQs over a real server (EOSE or NOTICE, never silence, never a closed connection)'
 LEVEL = "exploration"
 EXHAUSTIVE = {"quick": True, "thorough": True}
 RULE = (
